@@ -29,6 +29,22 @@ Qed.
 Lemma u8_wrap x : u8 x = wrapU 8 x.
 Proof. reflexivity. Qed.
 
+Lemma wrapS32_sum x : exists k, wrapS 32 x = x + 4294967296 * k.
+Proof.
+  exists (- ((x + 2147483648) / 4294967296)). unfold wrapS.
+  change (2^(32-1)) with 2147483648. change (2^32) with 4294967296. lia.
+Qed.
+(* inner wraps as "+ 2^32 * k" so that lia can reason modulo 2^32 *)
+Ltac gen_wraps :=
+  repeat match goal with
+         | |- context [wrapS 32 ?x] =>
+             let k := fresh "k" in let H := fresh "Hk" in
+             destruct (wrapS32_sum x) as [k H]; rewrite H; clear H
+         end.
+
+Ltac wrap_lia0 := repeat rewrite s_wrap; try unfold u; apply wrapS_eq_mod; [lia|]; try unfold wrapU;
+                  change M32 with 4294967296; change (2^32) with 4294967296; gen_wraps; lia.
+
 Lemma s_id x : int32 x -> s x = x.
 Proof. intros. rewrite s_wrap. apply wrapS_id; [lia|assumption]. Qed.
 
@@ -282,26 +298,38 @@ Section Refinement.
 
   Ltac val := unfold addS, subS, mulS, quoS, remS, shlS, shrS, shlU, shrU, addU;
               rewrite ?s_wrap, ?u_wrap.
+  (* fallback for linear 32-bit arithmetic written differently (operands commuted,
+     re-associated, intermediate wraps): both sides are equal modulo 2^32 *)
+  Ltac wrap_lia := repeat rewrite s_wrap; try unfold u; apply wrapS_eq_mod; [lia|]; try unfold wrapU;
+                   change M32 with 4294967296; change (2^32) with 4294967296; gen_wraps; lia.
+  (* fallback for a comparison written differently (operands swapped, >= for <=, ...) *)
+  Ltac cond_lia := first [reflexivity
+                         | (try unfold u; change M32 with 4294967296; apply Bool.eq_true_iff_eq;
+                            rewrite ?negb_true_iff, ?Z.eqb_eq, ?Z.eqb_neq, ?Z.ltb_lt, ?Z.leb_le, ?Z.ltb_ge, ?Z.leb_gt,
+                                    ?Z.gtb_lt, ?Z.geb_le; lia)].
+  Ltac wrap_mul := repeat rewrite s_wrap; try unfold u; apply wrapS_eq_mod; [lia|]; try unfold wrapU;
+                   change M32 with (2^32);
+                   rewrite <- ?Zmult_mod, ?Zmult_mod_idemp_l, ?Zmult_mod_idemp_r; f_equal; ring.
 
   Theorem run_refines_spec i :
     int32 (imm_of (sinstr_of i)) -> mem_ok (sinstr_of i) mem ->
     instr_Run i rr labels pc mem seq = omap embed (exec (sinstr_of i) rr labels pc mem).
   Proof.
     intros Himm Hmem. destruct i; unf.
-    - (* add *) apply reg_case. val. symmetry. apply wrapS32_u_add.
-    - (* addi *) apply reg_case. val. symmetry. apply wrapS32_u_add.
+    - (* add *) apply reg_case. val. first [symmetry; apply wrapS32_u_add | wrap_lia].
+    - (* addi *) apply reg_case. val. first [symmetry; apply wrapS32_u_add | wrap_lia].
     - (* and *) apply reg_case. rewrite s_wrap. apply land_u; apply Hrr.
     - (* andi *) apply reg_case. rewrite s_wrap. apply land_u; [apply Hrr | exact Himm].
     - (* auipc *) apply reg_case. val. apply auipc_value.
-    - (* beq *) apply branch_case. s_ids Hrr. reflexivity.
-    - (* beqz *) apply branch_case. s_ids Hrr. reflexivity.
-    - (* bge *) apply branch_case. s_ids Hrr. reflexivity.
-    - (* bgeu *) apply branch_case. reflexivity.
-    - (* ble *) apply branch_case. s_ids Hrr. reflexivity.
-    - (* blt *) apply branch_case. s_ids Hrr. reflexivity.
-    - (* bltu *) apply branch_case. reflexivity.
-    - (* bne *) apply branch_case. s_ids Hrr. reflexivity.
-    - (* bnez *) apply branch_case. s_ids Hrr. reflexivity.
+    - (* beq *) apply branch_case. s_ids Hrr. cond_lia.
+    - (* beqz *) apply branch_case. s_ids Hrr. cond_lia.
+    - (* bge *) apply branch_case. s_ids Hrr. cond_lia.
+    - (* bgeu *) apply branch_case. cond_lia.
+    - (* ble *) apply branch_case. s_ids Hrr. cond_lia.
+    - (* blt *) apply branch_case. s_ids Hrr. cond_lia.
+    - (* bltu *) apply branch_case. cond_lia.
+    - (* bne *) apply branch_case. s_ids Hrr. cond_lia.
+    - (* bnez *) apply branch_case. s_ids Hrr. cond_lia.
     - (* div *) s_ids Hrr. destruct (rr (div_rs2 o) =? 0) eqn:E; [reflexivity|].
       unfold guard. cbn [negb]. apply reg_case. val. reflexivity.
     - (* j *) destruct (labels (j_label o)); reflexivity.
@@ -327,7 +355,7 @@ Section Refinement.
       rewrite I32FromBytes_spec by assumption. cbn [bind].
       apply reg_case. apply lw_value.
     - (* nop *) reflexivity.
-    - (* mul *) apply reg_case. val. symmetry. apply wrapS32_u_mul.
+    - (* mul *) apply reg_case. val. first [symmetry; apply wrapS32_u_mul | wrap_mul].
     - (* mv *) apply reg_case. symmetry. apply s_id. apply Hrr.
     - (* or *) apply reg_case. rewrite s_wrap. apply lor_u; apply Hrr.
     - (* ori *) apply reg_case. rewrite s_wrap. apply lor_u; [apply Hrr | exact Himm].
@@ -335,11 +363,13 @@ Section Refinement.
       unfold guard. cbn [negb]. apply reg_case. val.
       symmetry. apply wrapS_id; [lia|]. apply rem_in_range; try apply Hrr. apply Z.eqb_neq; exact E.
     - (* ret *) reflexivity.
-    - (* sb *) unfold omap, embed. f_equal. f_equal. unfold addS. rewrite s_wrap, !u_wrap, wrapS32_u_add.
-      rewrite sb_byte. reflexivity.
+    - (* sb *) unfold omap, embed. f_equal. f_equal. unfold addS.
+      first [ rewrite s_wrap, !u_wrap, wrapS32_u_add; rewrite sb_byte; reflexivity
+            | rewrite sb_byte; repeat (f_equal; try reflexivity); wrap_lia ].
     - (* sh *) rewrite BytesFromLowBits_spec by apply Hrr. cbn [bind a4_0 a4_1].
-      unfold omap, embed. f_equal. f_equal. unfold addS. rewrite !s_wrap, !u_wrap, wrapS32_u_add.
-      rewrite !byte_k_byte_of by lia. reflexivity.
+      unfold omap, embed. f_equal. f_equal. unfold addS.
+      first [ rewrite !s_wrap, !u_wrap, wrapS32_u_add; rewrite !byte_k_byte_of by lia; reflexivity
+            | rewrite !byte_k_byte_of by lia; repeat (f_equal; try reflexivity); wrap_lia ].
     - (* sll *) apply reg_case. val. rewrite shamt_land. symmetry. apply wrapS32_u_mul_l.
     - (* slli *) apply reg_case. val. rewrite shamt_land. symmetry. apply wrapS32_u_mul_l.
     - (* slt *) s_ids Hrr. destruct (rr (slt_rs1 o) <? rr (slt_rs2 o)); apply reg_case2; reflexivity.
@@ -356,10 +386,11 @@ Section Refinement.
       rewrite Z.shiftr_div_pow2 by lia. reflexivity.
     - (* srli *) apply reg_case. val. rewrite shamt_land. pose proof (shamt_range (srli_imm o)).
       rewrite Z.shiftr_div_pow2 by lia. reflexivity.
-    - (* sub *) apply reg_case. val. symmetry. apply wrapS32_u_sub.
+    - (* sub *) apply reg_case. val. first [symmetry; apply wrapS32_u_sub | wrap_lia].
     - (* sw *) rewrite BytesFromLowBits_spec by apply Hrr. cbn [bind a4_0 a4_1 a4_2 a4_3].
-      unfold omap, embed. f_equal. f_equal. unfold addS. rewrite !s_wrap, !u_wrap, wrapS32_u_add.
-      rewrite !byte_k_byte_of by lia. reflexivity.
+      unfold omap, embed. f_equal. f_equal. unfold addS.
+      first [ rewrite !s_wrap, !u_wrap, wrapS32_u_add; rewrite !byte_k_byte_of by lia; reflexivity
+            | rewrite !byte_k_byte_of by lia; repeat (f_equal; try reflexivity); wrap_lia ].
     - (* xor *) apply reg_case. rewrite s_wrap. apply lxor_u; apply Hrr.
     - (* xori *) apply reg_case. rewrite s_wrap. apply lxor_u; [apply Hrr | exact Himm].
   Qed.
@@ -378,14 +409,18 @@ Theorem memory_read_exact i rr seq : instr_MemoryRead i rr seq = load_addrs (sin
 Proof.
   destruct i; try reflexivity;
     cbv beta iota zeta delta [instr_MemoryRead sinstr_of load_addrs]; autounfold with opcodes; cbv beta zeta;
-    unfold addS; rewrite !s_wrap, !u_wrap, wrapS32_u_add; reflexivity.
+    unfold addS;
+    first [ rewrite !s_wrap, !u_wrap, wrapS32_u_add; reflexivity
+          | repeat (f_equal; try reflexivity); wrap_lia0 ].
 Qed.
 
 Theorem memory_write_exact i rr seq : instr_MemoryWrite i rr seq = store_addrs (sinstr_of i) rr.
 Proof.
   destruct i; try reflexivity;
     cbv beta iota zeta delta [instr_MemoryWrite sinstr_of store_addrs]; autounfold with opcodes; cbv beta zeta;
-    unfold addS; rewrite !s_wrap, !u_wrap, wrapS32_u_add; reflexivity.
+    unfold addS;
+    first [ rewrite !s_wrap, !u_wrap, wrapS32_u_add; reflexivity
+          | repeat (f_equal; try reflexivity); wrap_lia0 ].
 Qed.
 
 (* the effect depends on the registers in [reads] only *)
